@@ -162,6 +162,14 @@ def p_coercible(I, a, n):
     raise OutOfSubset(f'coercible for a value of kind {v.kind}')
 
 
+def p_cap(I, a, n):
+    """cap(f, 'name'): the value of variable `name` captured by the closure value f (an int)"""
+    from .calls import literal_str
+    f, name = a
+    acc = z3.Function(f"cap_{literal_str(name)}", TY.Obj, z3.IntSort())
+    return mk_int(acc(f.extra['id']))
+
+
 def p_comparable(I, a, n):
     x, y = a
     num = ('int', 'real')
@@ -176,7 +184,7 @@ def p_src_R(I, a, n):
     return a[0].extra['R']
 
 
-PRIMS = {'comparable': p_comparable, 'coerce_like': p_coerce_like, 'coercible': p_coercible, 'src_T': p_src_T, 'src_R': p_src_R, 'be': p_be, 'le': p_le, 'sl': p_sl, 'cat': p_cat, 'low': p_low, 'shr': p_shr, 'pow2': p_pow2, 'tb': p_tb,
+PRIMS = {'cap': p_cap, 'comparable': p_comparable, 'coerce_like': p_coerce_like, 'coercible': p_coercible, 'src_T': p_src_T, 'src_R': p_src_R, 'be': p_be, 'le': p_le, 'sl': p_sl, 'cat': p_cat, 'low': p_low, 'shr': p_shr, 'pow2': p_pow2, 'tb': p_tb,
          'tl': p_tl, 'bat': p_bat, 'rpow': p_rpow, 'rpow2': p_rpow2, 'bfind': p_bfind, 'band': p_band, 'bor': p_bor,
          'toreal': p_toreal, 'i2r': p_toreal, 'at': p_at, 'append': p_append, 'is_int_valued': p_is_int_valued,
          'decode': p_decode, 'decodable': p_decodable, 'cls_is': p_cls_is, 'warned': p_warned}
